@@ -72,6 +72,11 @@ class RuleOk:
         self.value = value
 
 
+HUGE_BYTES = 1000
+HUGE_STEP_CAP = 500000
+HUGE_DEPTH = 200
+
+
 class Model:
     def __init__(self, g: Grammar, types=None, step_cap=20000):
         self.g = g
@@ -98,6 +103,10 @@ class Model:
             self.chars[off] = (ch, l)
             off += l
         self.steps = 0
+        # very long inputs (pipeline option huge_inputs) get a larger step budget but a small nesting budget, so that
+        # the real parser's native stack is never the thing being tested
+        self.cap_now = self.step_cap if self.n <= HUGE_BYTES else max(self.step_cap, HUGE_STEP_CAP)
+        self.depth = 0
         self.att = []      # non-hidden failed attempts (offset, kind)
         self.att_all = []  # every failed attempt ever made
         self.ev = []       # ('S', rule, q) / ('O', rule, q, end) / ('E', rule, q)
@@ -126,7 +135,7 @@ class Model:
 
     def tick(self):
         self.steps += 1
-        if self.steps > self.step_cap:
+        if self.steps > self.cap_now:
             raise Drop("model step cap")
 
     def fail(self, off, kind):
@@ -174,18 +183,24 @@ class Model:
         if r.kind == "extern":
             return self.call_extern(r, q)
         self.ev.append(("S", name, q))
-        if r.has("leftrec"):
-            res = self.call_leftrec(r, q)
-        elif r.has("memoize"):
-            key = (name, q)
-            if key in self.memo:
-                self.counters["cache_hits"] += 1
-                res = self.memo[key]
+        self.depth += 1
+        if self.depth > HUGE_DEPTH and self.n > HUGE_BYTES:
+            raise Drop("nesting too deep for a very long input")
+        try:
+            if r.has("leftrec"):
+                res = self.call_leftrec(r, q)
+            elif r.has("memoize"):
+                key = (name, q)
+                if key in self.memo:
+                    self.counters["cache_hits"] += 1
+                    res = self.memo[key]
+                else:
+                    res = self.call_body(r, q)
+                    self.memo[key] = res
             else:
                 res = self.call_body(r, q)
-                self.memo[key] = res
-        else:
-            res = self.call_body(r, q)
+        finally:
+            self.depth -= 1
         in_lr = bool(self.lr_active)
         if res is None:
             self.ev.append(("E", name, q))
